@@ -819,6 +819,228 @@ func execInterleave(n int, variant string) hx.Result {
 	return res
 }
 
+// ---------------------------------------------------------------- strongly pruned searches, n = 12..26
+
+// Hereditary families with a closed-form number of classes and a cheap complete invariant, read
+// off the Edges array directly (gx.G stops at 16 vertices): the only way to run the search past
+// the sizes at which masks, subset counts and table indices cross 8 / 16 bits.
+type rawG struct {
+	n int
+	e []byte
+}
+
+func (g rawG) adj(u, v int) bool {
+	if u == v {
+		return false
+	}
+	if u > v {
+		u, v = v, u
+	}
+	return g.e[v*(v-1)/2+u] > 0
+}
+
+func (g rawG) deg(v int) int {
+	c := 0
+	for u := 0; u < g.n; u++ {
+		if g.adj(u, v) {
+			c++
+		}
+	}
+	return c
+}
+
+func (g rawG) edges() int {
+	c := 0
+	for _, b := range g.e {
+		if b > 0 {
+			c++
+		}
+	}
+	return c
+}
+
+// classes of the relation rel (which is an equivalence on the graphs of the family), sizes sorted
+func (g rawG) classSizes(rel func(u, v int) bool) string {
+	seen := make([]bool, g.n)
+	var sizes []int
+	for u := 0; u < g.n; u++ {
+		if seen[u] {
+			continue
+		}
+		c := 0
+		for v := u; v < g.n; v++ {
+			if v == u || rel(u, v) {
+				seen[v] = true
+				c++
+			}
+		}
+		sizes = append(sizes, c)
+	}
+	sort.Ints(sizes)
+	return joinInts(sizes)
+}
+
+// some a, b, c distinct with rel(a,b), rel(b,c) and not rel(a,c)
+func (g rawG) notTransitive(rel func(u, v int) bool) bool {
+	for b := 0; b < g.n; b++ {
+		for a := 0; a < g.n; a++ {
+			if a == b || !rel(a, b) {
+				continue
+			}
+			for c := a + 1; c < g.n; c++ {
+				if c != b && rel(b, c) && !rel(a, c) {
+					return true
+				}
+			}
+		}
+	}
+	return false
+}
+
+func partitionsOf(n int) int {
+	p := make([]int, n+1)
+	p[0] = 1
+	for k := 1; k <= n; k++ {
+		for i := k; i <= n; i++ {
+			p[i] += p[i-k]
+		}
+	}
+	return p[n]
+}
+
+type family struct {
+	bad     func(g rawG) bool   // true: not in the family (hereditary: stays true when vertices are added)
+	inv     func(g rawG) string // complete invariant on the family
+	classes func(n int) int
+}
+
+var families = map[string]family{
+	"matchings": { // maximum degree <= 1
+		bad: func(g rawG) bool {
+			for v := 0; v < g.n; v++ {
+				if g.deg(v) > 1 {
+					return true
+				}
+			}
+			return false
+		},
+		inv:     func(g rawG) string { return strconv.Itoa(g.edges()) },
+		classes: func(n int) int { return n/2 + 1 },
+	},
+	"twoedges": { // at most two edges (n >= 4: none, one, two adjacent, two disjoint)
+		bad: func(g rawG) bool { return g.edges() > 2 },
+		inv: func(g rawG) string {
+			md := 0
+			for v := 0; v < g.n; v++ {
+				if d := g.deg(v); d > md {
+					md = d
+				}
+			}
+			return fmt.Sprintf("%d.%d", g.edges(), md)
+		},
+		classes: func(n int) int { return 4 },
+	},
+	"star": { // all edges through one vertex
+		bad: func(g rawG) bool {
+			m := g.edges()
+			if m <= 1 {
+				return false
+			}
+			for v := 0; v < g.n; v++ {
+				if g.deg(v) == m {
+					return false
+				}
+			}
+			return true
+		},
+		inv:     func(g rawG) string { return strconv.Itoa(g.edges()) },
+		classes: func(n int) int { return n },
+	},
+	"cliques": { // disjoint unions of cliques
+		bad:     func(g rawG) bool { return g.notTransitive(g.adj) },
+		inv:     func(g rawG) string { return g.classSizes(g.adj) },
+		classes: partitionsOf,
+	},
+	"multipartite": { // complete multipartite: non-adjacency is an equivalence
+		bad: func(g rawG) bool {
+			return g.notTransitive(func(u, v int) bool { return u != v && !g.adj(u, v) })
+		},
+		inv:     func(g rawG) string { return g.classSizes(func(u, v int) bool { return u != v && !g.adj(u, v) }) },
+		classes: partitionsOf,
+	},
+}
+
+// execFamily: all shards a < m of WithPruning(n, a, m, ..) with the family's predicate as preprune
+// or prune: every yielded value well formed on n vertices and in the family, the invariants
+// pairwise distinct over all shards together, and as many as the closed form says.
+func execFamily(n, m int, name, place string) hx.Result {
+	res := hx.Result{Obs: fmt.Sprintf("family %d %d %s %s | ok", n, m, name, place),
+		Buckets: []string{"family " + name, fmt.Sprintf("family n=%d", n)}}
+	fam := families[name]
+	pred := func(d *graph.DenseGraph) bool {
+		return fam.bad(rawG{d.NumberOfVertices, d.Edges})
+	}
+	pre, post := noPrune, noPrune
+	if place == "pre" {
+		pre = pred
+	} else {
+		post = pred
+	}
+	want := fam.classes(n)
+	seen := map[string]int{}
+	total := 0
+	fail := func(key, format string, a ...interface{}) {
+		if len(res.Viol) < 4 {
+			res.Viol = append(res.Viol, hx.Fail(key, "family %s n=%d m=%d %s: "+format, append([]interface{}{name, n, m, place}, a...)...))
+		}
+	}
+	for a := 0; a < m; a++ {
+		it := search.WithPruning(n, a, m, pre, post)
+		for it.Next() {
+			d := it.Value()
+			total++
+			if total > 20*want+20 {
+				fail("family-count", "more than %d values yielded (%d classes expected)", 20*want+20, want)
+				return res
+			}
+			if d.NumberOfVertices != n || len(d.DegreeSequence) != n || len(d.Edges) != n*(n-1)/2 {
+				fail("family-wf", "value %d of shard %d is not a graph on %d vertices (N=%d, %d degrees, %d edge bytes)", total, a, n, d.NumberOfVertices, len(d.DegreeSequence), len(d.Edges))
+				continue
+			}
+			g := rawG{n, d.Edges}
+			ok := d.NumberOfEdges == g.edges()
+			for _, b := range d.Edges {
+				if b > 1 {
+					ok = false
+				}
+			}
+			for v := 0; v < n; v++ {
+				if d.DegreeSequence[v] != g.deg(v) {
+					ok = false
+				}
+			}
+			if !ok {
+				fail("family-wf", "value %d of shard %d is not well formed (NumberOfEdges / DegreeSequence / Edges disagree)", total, a)
+			}
+			if fam.bad(g) {
+				fail("family-member", "value %d of shard %d is not in the family", total, a)
+			}
+			seen[fam.inv(g)]++
+		}
+	}
+	for k, c := range seen {
+		if c > 1 {
+			fail("family-duplicate", "the class with invariant %s is yielded %d times", k, c)
+			break
+		}
+	}
+	if len(seen) != want || total != want {
+		fail("family-count", "%d values, %d distinct classes, closed form %d", total, len(seen), want)
+	}
+	res.Nontrivial = total >= 2
+	return res
+}
+
 // ---------------------------------------------------------------- the combinations
 
 var moduli = []int{1, 2, 3, 4, 7}
@@ -935,6 +1157,11 @@ func exec(line string) hx.Result {
 		head = line[:i]
 	}
 	f := strings.Fields(head)
+	if f[0] == "family" {
+		n, _ := strconv.Atoi(f[1])
+		m, _ := strconv.Atoi(f[2])
+		return execFamily(n, m, f[3], f[4])
+	}
 	if f[0] == "interleave" {
 		n, _ := strconv.Atoi(f[1])
 		return execInterleave(n, f[2])
@@ -1079,6 +1306,29 @@ func gen(g *hx.Gen) {
 				g.Emit(unitCase(k, us[at:end]))
 			}
 		})
+	}
+	// strongly pruned searches across the sizes where masks / counts leave 8 and 16 bits
+	famSizes := map[string][]int{
+		"matchings":    {12, 15, 16, 17, 18, 20, 24, 26},
+		"twoedges":     {15, 16, 17, 18, 24, 26},
+		"star":         {15, 16, 17, 18, 20, 24},
+		"cliques":      {12, 14, 16, 17, 18},
+		"multipartite": {9, 11, 12},
+	}
+	if g.Thorough() {
+		famSizes["matchings"] = []int{12, 13, 14, 15, 16, 17, 18, 19, 20, 22, 24, 25, 26}
+		famSizes["cliques"] = []int{12, 13, 14, 15, 16, 17, 18, 19, 20}
+		famSizes["multipartite"] = []int{9, 10, 11, 12, 13, 14}
+		famSizes["star"] = []int{15, 16, 17, 18, 19, 20, 22, 24, 26}
+	}
+	for _, name := range []string{"matchings", "twoedges", "star", "cliques", "multipartite"} {
+		for _, n := range famSizes[name] {
+			for _, place := range []string{"pre", "post"} {
+				for _, m := range []int{1, 3} {
+					g.Emit(fmt.Sprintf("family %d %d %s %s", n, m, name, place))
+				}
+			}
+		}
 	}
 	// two live iterators for the same n
 	for _, n := range []int{5, 6, 7} {
